@@ -182,7 +182,9 @@ structure Obj where
   deriving Repr, Inhabited
 
 /-- the reader: `file_version`, the remembered strings / types / objects, one more than the largest
-object index read so far, `struct_elements_left` -/
+object index read so far, `struct_elements_left`; `cost` is not part of the code: a generous estimate
+of the heap the values created so far take (bytes), from which the driver decides membership in the
+class of the recorded finding `sklb.object-heap-amplification` -/
 structure HSt where
   ver : Nat
   strings : Array Bytes
@@ -190,12 +192,16 @@ structure HSt where
   objs : Array Obj
   refBound : Nat
   left : Nat
+  cost : Nat
   deriving Repr, Inhabited
+
+/-- ghost: `n` more bytes of estimated heap -/
+def HSt.pay (st : HSt) (n : Nat) : HSt := { st with cost := st.cost + n }
 
 def objectType : HType := .root [111, 98, 106, 101, 99, 116] []
 
 /-- `HavokBinaryTagFileReader::new` on `len` bytes -/
-def HSt.init (len : Nat) : HSt := ⟨0, #[[115, 116, 114, 105, 110, 103], []], #[objectType], #[], 0, len⟩
+def HSt.init (len : Nat) : HSt := ⟨0, #[[115, 116, 114, 105, 110, 103], []], #[objectType], #[], 0, len, 0⟩
 
 def HSt.noteRef (st : HSt) (i : Nat) : HSt := { st with refBound := max st.refBound (i + 1) }
 
@@ -216,7 +222,8 @@ def readString (hs : HSt) : P (Bytes × HSt) := do
       | none => P.failP)
   else do
     let s ← P.countBytesChecked len.toNat
-    if Utf8.valid s then pure (s, { hs with strings := hs.strings.push s }) else P.failP
+    if Utf8.valid s then pure (s, { hs with strings := hs.strings.push s, cost := hs.cost + 2 * s.length + 64 })
+    else P.failP
 
 def readStringV (hs : HSt) : P (Value × HSt) := do
   let r ← readString hs
@@ -308,7 +315,8 @@ def readColumns (ra : HSt → Member → Nat → P (List Value × HSt)) :
     if e then
       (if isTuple m.ty then P.failP
        else do
-        let col ← ra hs m len
+        -- (ghost: one map entry per element for the column)
+        let col ← ra (hs.pay (100 * len)) m len
         let rest ← readColumns ra ms es (idx + 1) len col.2
         pure ((idx, col.1.toArray) :: rest.1, rest.2))
     else readColumns ra ms es (idx + 1) len hs
@@ -327,7 +335,8 @@ def readArray : Nat → HSt → Member → Nat → P (List Value × HSt)
         -- `self.struct_elements_left = self.struct_elements_left.checked_sub(array_len)?`
         if hs.left < len then P.failP
         else do
-          let cols ← readColumns (readArray fuel) t.members ex 0 len { hs with left := hs.left - len }
+          let cols ← readColumns (readArray fuel) t.members ex 0 len
+            { hs with left := hs.left - len, cost := hs.cost + 400 * len }
           pure ((List.range len).map (fun i => Value.obj t (rowOf cols.1 i)), cols.2)
     else if base == 8 then iterN len readRefV hs
     else if base == 1 then iterN len readByteV hs
@@ -347,7 +356,8 @@ def readMemberValue (hs : HSt) (m : Member) : P (Value × HSt) :=
     if len < 0 ∨ !enough then P.failP
     else if baseType m.ty == 8 && m.cls.isNone then P.failP
     else do
-      let l ← readArray (maxArrayDepth + 1) hs m len.toNat
+      -- (ghost: a `HavokValue` per element, a `Vec<f32>` per vector)
+      let l ← readArray (maxArrayDepth + 1) (hs.pay (192 * len.toNat)) m len.toNat
       pure (.arr l.1, l.2)
   else if m.ty == 1 then readByteV hs
   else if m.ty == 2 then readIntV hs
@@ -377,7 +387,8 @@ def readObject (hs : HSt) : P (Obj × HSt) := do
   | some t => do
     let ms := t.members
     let ex ← readBitField ms.length
-    let data ← readMembers ms ex 0 hs
+    -- (ghost: the object and one map entry per member, present or defaulted)
+    let data ← readMembers ms ex 0 (hs.pay (256 + 100 * ms.length))
     pure (⟨t, data.1⟩, data.2)
 
 /-- one iteration of the tag loop of `do_read`: `inl` = go on, `inr` = `FileEnd` -/
@@ -404,14 +415,14 @@ def tagStep (hs : HSt) : P (Sum HSt HSt) := do
 
 /-- `HavokBinaryTagFileReader::read` on the bytes from the cursor on: signature, tag loop, reference
 fix-up (every object index that was read must be remembered), the root is entry 1 -/
-def havokRead : P (Array Obj) := do
+def havokRead : P (Array Obj × Nat) := do
   let len ← P.remaining
   let s1 ← P.u32le
   let s2 ← P.u32le
   if s1 != 0xCAB00D1E || s2 != 0xD011FACE then P.failP
   else do
     let hs ← loopSt tagStep (HSt.init len)
-    if hs.refBound ≤ hs.objs.size ∧ 1 < hs.objs.size then pure hs.objs else P.failP
+    if hs.refBound ≤ hs.objs.size ∧ 1 < hs.objs.size then pure (hs.objs, hs.cost) else P.failP
 
 /-! ### the SKLB container -/
 
@@ -438,7 +449,7 @@ def header : P Nat := do
     let _ ← P.u32le
     pure off.toNat
 
-def reader : P (Array Obj) := do
+def reader : P (Array Obj × Nat) := do
   let off ← header
   P.seekStart off
   havokRead
@@ -599,10 +610,17 @@ def extract (objs : Array Obj) : Option Nat :=
               | (names, parents, poses) :: _ =>
                 if names ≤ parents ∧ names ≤ poses then some names else none
 
-/-- `Skeleton::from_existing`: the number of bones -/
-def fromExisting (b : Bytes) : Res Nat := do
-  let objs ← P.run reader b
-  Res.ofOption (extract objs)
+/-- `Skeleton::from_existing`: the number of bones (and the ghost estimate of the heap) -/
+def fromExisting (b : Bytes) : Res (Nat × Nat) := do
+  let r ← P.run reader b
+  Res.ofOption ((extract r.1).map fun n => (n, r.2))
+
+/-- the input class of the recorded finding `sklb.object-heap-amplification`: the file parses and the
+objects it describes take (by the generous estimate `cost`) more than half of the budget -/
+def heapOutOfProportion (b : Bytes) : Bool :=
+  match (fromExisting b).out with
+  | .ok (_, cost) => decide (budget b.length < 2 * cost)
+  | _ => false
 
 /-! ### the pinned commit, for the witness theorem: `read_packed_int` over a panicking `ByteReader` -/
 
